@@ -106,12 +106,23 @@ def audit_images(ctx, drv, cases):
                 owner[m.group(1)] = (c, exp[m.group(1)])
     if not paths:
         return
-    rc, out, e = C.run_lines([drv, "fmt"], ["audit %s 4000" % p for p in paths], timeout=900)
-    if rc != 0 or len(out) != len(paths):
+    rc, out, e = C.run_lines([drv, "fmt"], [l for p in paths for l in ("audit %s 4000" % p, "reenc %s" % p)], timeout=900)
+    if rc != 0 or len(out) != 2 * len(paths):
         ctx.corr_broken.append("format reader failed: rc=%s %s" % (rc, e[-300:]))
         return
-    for p, line in zip(paths, out):
+    for p, line, renc in zip(paths, out[0::2], out[1::2]):
         c, exp = owner[p]
+        # byte-exact tie of the Lean encoders (Model/FormatEnc.lean) to the bytes the C writers produced
+        if renc.startswith("reenc ok"):
+            ctx.hist("reenc:ok")
+            for w in renc.split()[2:]:
+                k, v = w.split("=")
+                ctx.hist("reenc:" + k, int(v))
+        elif renc.startswith("reenc BAD"):
+            ctx.hist("reenc:BAD")
+            ctx.corr_broken.append("Lean encoders differ from the file bytes (%s): %s" % (os.path.basename(p), renc[:300]))
+        else:
+            ctx.hist("reenc:unreadable")
         ctx.cov["traces_validated_against_impl"] += 1
         ctx.hist("image:" + ("closed" if p.endswith("closed") else "live"))
         ctx.case(("img", p))
